@@ -321,6 +321,16 @@ def run_case(spec, sub=None):
             viol.append(f"contract / set_surface_order_from_path raised {got if isinstance(got, str) else r}")
         else:
             steps2 = [(p, l, r) for p, l, r in tree.traverse("surface_order")]
+            if spec.get("resurface"):
+                # a copy must carry the schedule that was installed
+                ok_c, steps_c = guarded(lambda: [(p, l, r) for p, l, r in tree.copy().traverse("surface_order")])
+                if not ok_c:
+                    viol.append(f"copy().traverse('surface_order') raised {steps_c}")
+                elif steps_c != steps2:
+                    viol.append(
+                        "after set_surface_order_from_path a copy() of the tree replays another 'surface_order' "
+                        "schedule than the tree it was copied from"
+                    )
             per_slice = len(want_pre) + (n - 1)
             rep2 = [tree.get_size(p) for p, _, _ in steps2]
             for s_ in range(cr.nslices):
